@@ -11,7 +11,7 @@
    Trusted: the protobuf wire codec; that the p-records of Model/Proto.v are read/written by the Python code as modelled
    is observed by the differential harness. *)
 From Coq Require Import String ZArith List Bool.
-From V Require Import Result Bytes Schema PyFacts Proto ProtoReader ProtoProps.
+From V Require Import Result Bytes Schema PyFacts Proto ProtoReader ProtoProps SchemaFacts.
 From V Require ProtoRoundTrip.
 Import ListNotations.
 Local Open Scope string_scope.
@@ -146,6 +146,22 @@ Theorem C02_schema_enum_accepted : forall nm sn v, In nm (map fst schema_enums) 
   check_enum nm v = Ok tt.
 Proof. exact schema_enum_accepted. Qed.
 
+(* ... and the pairing is by NAME: each Python member carries the number of the schema constant it is named after (same name, the
+   name after the schema's prefix, or without "Endian"), each schema constant has such a member, and no member shares its name with
+   a constant of another number.  Exchanging the numbers of two members leaves save-then-load the identity and every number
+   accepted, but makes the writer and the reader each disagree with the schema: that breaks this obligation. *)
+Theorem C02_enum_names_paired : forall nm, In nm (map fst schema_enums) ->
+  (forall pn v, In (pn, v) (enum_members nm) -> exists sn, In (sn, v) (schema_members nm) /\ name_match sn pn = true)
+  /\ (forall sn v, In (sn, v) (schema_members nm) -> exists pn, In (pn, v) (enum_members nm) /\ name_match sn pn = true)
+  /\ (forall n v v', In (n, v) (enum_members nm) -> In (n, v') (schema_members nm) -> v = v').
+Proof. exact enum_names_paired. Qed.
+
+Example C02_name_match_examples :
+  name_match "ISA_Undefined" "Undefined" = true /\ name_match "ARM_Thumb" "Thumb" = true /\ name_match "BigEndian" "Big" = true
+  /\ name_match "ARM64" "ARM64" = true /\ name_match "ARM64" "ARM" = false /\ name_match "PPC64" "ARM64" = false
+  /\ name_match "GOTPC" "GOT" = false /\ name_match "TLSGD" "TLS" = false.
+Proof. vm_compute. repeat split; reflexivity. Qed.
+
 Theorem C02_version_agrees : schema_protobuf_version = py_protobuf_version.
 Proof. exact (proj1 version_agrees). Qed.
 
@@ -200,6 +216,7 @@ Print Assumptions C02_accept_coherent.
 Print Assumptions C02_enum_total.
 Print Assumptions C02_enum_names.
 Print Assumptions C02_schema_enum_accepted.
+Print Assumptions C02_enum_names_paired.
 Print Assumptions C02_version_agrees.
 Print Assumptions C02_fields_covered.
 Print Assumptions C02_oneofs_covered.
